@@ -218,6 +218,7 @@ RegCalls(rt, cd, n) ==
     \cup { ExecuteCall(u, << Inst(code, label, adm, <<>>, salt) >>) :
               u \in {"u1", "u2"}, code \in {1, 3, 5, 7}, label \in {"Lq", ""}, adm \in {"", "u2"}, salt \in {"", "s1"} }
     \cup { ExecuteCall("u1", << Exec(A, <<>>) >>) }
+    \cup { ExecuteCall("u1", << Migrate(A, c) >>) : c \in {1, 2, 3, 4, 5, 6} }     \* A's admin migrates to every id
 
 (* ====================================================================== *)
 (* admin: C12 - migrate / update admin / clear admin *)
@@ -274,17 +275,22 @@ GenesisRoute == Genesis0 \o
     << [call |-> [k |-> "store_code", creator |-> "u1", flavour |-> 3], sc |-> <<>>],
        [call |-> ExecuteCall("u1", << Inst(3, "LE", "", <<>>, "") >>), sc |-> <<B0>>] >>
 SlotsOf(c) == IF c = E THEN Slots \ {"custom"} ELSE Slots
+EmptyTyped(cu) == cu.call.k = "execute" /\ cu.call.msgs[1].k \in {"migrate", "inst"} /\ cu.call.msgs[1].code = 3
 RouteMenu(info, fuel, cu) ==
     IF info.entry = "reply" \/ Len(cu.sc) > 0 THEN {B0}
-    ELSE {Beh(FALSE, WriteTok(info), <<>>, <<>>, NoData, <<Sub(Mod(s, "m1"), 1, "", on)>>) : s \in SlotsOf(info.c), on \in Ons}
+    ELSE {Beh(FALSE, WriteTok(info), <<>>, <<>>, NoData, <<Sub(Mod(s, "m1"), 1, "", on)>>) :
+                  s \in (IF EmptyTyped(cu) THEN Slots \ {"custom"} ELSE SlotsOf(info.c)), on \in Ons}
          \cup {Beh(FALSE, WriteTok(info), <<>>, <<>>, NoData, <<Sub(Send("u2", 1), 1, "", "never"), Sub(Mod(s, "m2"), 2, "", on)>>) :
-                  s \in SlotsOf(info.c), on \in {"never", "error"}}
+                  s \in (IF EmptyTyped(cu) THEN Slots \ {"custom"} ELSE SlotsOf(info.c)), on \in {"never", "error"}}
          \cup {Beh(FALSE, WriteTok(info), <<>>, <<>>, NoData, <<Sub(m, 3, "", on)>>) :
                   m \in {Exec(B, <<>>), Exec(B, Eth(1)), Inst(2, "Lw", "", <<>>, ""), Send("u2", 1), Burn(1)}, on \in {"never", "success"}}
 RouteCalls(rt, cd, n) ==
     { ExecuteCall("u1", << Mod(s, "m0") >>) : s \in Slots }
     \cup { ExecuteCall("u1", << Send("u2", 1), Mod(s, "m3") >>) : s \in Slots }
     \cup { ExecuteCall("u1", << Exec(c, <<>>) >>) : c \in {A, B, E} }
+    (* other origins: messages emitted by the migrate, sudo and instantiate entry points *)
+    \cup { ExecuteCall("u1", << Migrate(A, 2) >>), ExecuteCall("u1", << Migrate(A, 3) >>), SudoWasm(A, "sudo"), SudoWasm(E, "wasm_sudo"),
+           ExecuteCall("u1", << Inst(1, "Lr", "", <<>>, "") >>), ExecuteCall("u1", << Inst(3, "Lr", "", <<>>, "") >>) }
 ModsAcceptAll == ModsFor(Slots)
 ModsMixed == ModsFor({"custom", "ibc", "any"})
 =============================================================================
